@@ -27,25 +27,32 @@ META = dict(
     engine="E2-hist", level="model_checking",
     technique="explicit-state breadth-first search over build/drop/collect/slice/watch/drop-FFI histories of real "
               "ctype objects, against a structural-identity model (same key <=> same object among live types)",
-    text="All histories over 4 slots, in 8 exhaustively explored families: (all) 36 type expressions -- primitives, "
-         "void, pointers (to pointers, void, arrays, two distinct 'struct S', an enum), arrays (open, 0, nested, of "
-         "structs), function types (0-2 arguments, ellipsis, struct by value, function-pointer argument, "
-         "pointer-to-array result, 3 ABIs) -- built by the constructors and through both parsers, depth 2 (thorough: "
-         "the 15 base+ABI ones and the 17 shapes also at depth 3); (small) 4 expressions to depth 4 (thorough 5) with "
-         "slicing a pointer cdata (pointer<->array reference cycle: the types die in the collector, not by refcount) "
-         "and a user weakref whose callback rebuilds the dying type; (abi) function types that differ only in ABI "
-         "and/or ellipsis to depth 3 (4); (holders) long-lived in-line FFI, C-level FFI and generated-module FFI "
-         "objects that keep what they parsed, typeof(lib.func), drop of the FFI, young-generation collections, depth "
-         "3 (4); (spell) per type every spelling (qualifiers, hex/octal/expression lengths, parameter names, array "
-         "and function parameters that decay, (void), __stdcall, typedef names) through 5 parser routes, pairs "
-         "(thorough: triples on the shared routes); (watch) weakref callbacks rebuilding the dying type through the "
-         "constructors, through the in-line route, or a pointer/array type that depends on it, with the array type "
-         "of a slice kept, depth 4 (5); (nav) types reached by slicing and addressof; (population) 100 and 3000 "
-         "array / pointer-chain / function types, half dropped, collected, rebuilt after the freed addresses were "
-         "reused.  Every ctype ever built is also followed by a weak reference: while it is alive for whatever "
-         "reason (cycle, FFI cache, module table) a rebuild must return it.",
-    note="automatic GC is disabled during the search so that collections happen exactly where a history says; "
-         "expected wall time on the idle 16-core machine: quick about 70 s, thorough about 10 min")
+    text="All histories over 4 slots in 9 exhaustively explored families of alphabets, plus populations.  (all) 36 "
+         "type expressions -- primitives, void, pointers (to pointers, void, arrays, two distinct 'struct S', an "
+         "enum), arrays (open, 0, nested, of structs), function types (0-2 arguments, ellipsis, struct by value as "
+         "argument and result, function-pointer argument, pointer-to-array result, 3 ABIs) -- built by the "
+         "constructors, through both parsers and by addressof(), depth 2 (thorough also: the 15 base+ABI and the 18 "
+         "shape expressions at depth 3).  (small) 4 expressions to depth 4 (thorough 5) with slicing a pointer cdata "
+         "(pointer<->array reference cycle: the types die in the collector, not by refcount) and a user weakref "
+         "whose callback rebuilds the dying type.  (abi) function types that differ only in ABI and/or ellipsis, "
+         "depth 4.  (holders) long-lived in-line and C-level FFI objects that keep what they parsed, drop of the "
+         "FFI, young-generation collections, depth 4.  (module) instances of a generated out-of-line module: typedef "
+         "names, typeof(lib.func), drop of the module's FFI, depth 4.  (spell, spell-module) per type every spelling "
+         "(qualifiers, hex/octal/expression lengths, parameter names, array and function parameters that decay, "
+         "(void), __stdcall, blanks, typedef names) through fresh and long-lived FFIs of both parsers and through "
+         "the module, all pairs (thorough: all triples on the long-lived routes).  (watch) weakref callbacks that "
+         "rebuild the dying type through the constructors, through the in-line route, or build a pointer / array "
+         "type that depends on it, one or two watchers on the members of a pointer<->array cycle whose slice type is "
+         "kept, depth 5 (6).  (nav) array types reached by slicing (kept as live types) and pointer types by "
+         "addressof, depth 4 (5).  (population) 100 and 3000 array / pointer-chain / function types, half dropped, "
+         "collected, other types built on the freed addresses, all rebuilt.  After every step: pairwise identity "
+         "<=> equal key among the slots AND every ctype the history ever obtained that is still alive for whatever "
+         "reason (cycle, FFI cache, module table; followed by the unique cache's own weakref), rebuilds of live "
+         "types return them, and .item / .args / .result / .length / .ellipsis / .abi are the canonical components.",
+    note="automatic GC is disabled during the search so that collections happen exactly where a history says; every "
+         "history starts from the same process-wide state (previous system disposed and collected, cffi's in-line "
+         "type cache emptied, primitives and -- second phase -- the module's types pinned before the workers fork). "
+         "Expected wall time on the idle 16-core machine: quick about 40 s, thorough about 8 min")
 
 NSLOT = 4
 TERMS, NAMES = T.TERMS, T.NAMES
@@ -104,6 +111,15 @@ class Sys(object):
         if old is not None:
             old._dispose()
         del old
+        # cffi's own process-wide cache of the in-line route (model._typecache_cffi_backend: a WeakValueDictionary
+        # whose KEYS hold the argument ctypes strongly) is emptied as well: 'int[]' built in-line and then cached as
+        # the slice type of 'int *' makes both immortal (key -> int * -> ct_stuff -> int[] <- weak value), so one
+        # history would decide for all later ones of the same worker process that 'int *' never dies.  Inside one
+        # history the cache works as it does for any user.
+        from cffi import model
+        tc = getattr(model, "_typecache_cffi_backend", None)
+        if tc is not None:
+            tc.data.clear() if hasattr(tc, "data") else tc.clear()
         _gc.collect()
         _CURRENT = weakref.ref(self)
         self.cfg = cfg
@@ -497,36 +513,45 @@ def _population(item):
 
 # ---- the plan -------------------------------------------------------------------------------------------------
 def _plan(quick):
-    """(family, [cfg...], depth, d0): every cfg is a finite alphabet that is explored exhaustively to `depth`."""
+    """(family, [cfg...], depth, d0): every cfg is a finite alphabet that is explored exhaustively to `depth`.
+
+    The families that go through an instance of the generated module ('module', 'spell-module') run in a second
+    phase, in worker processes of their own: a ctype realised into a module's types[] table is never released (not
+    even when the module's FFI object dies), so it is immortal for the rest of the PROCESS.  Mixed with the other
+    families it would depend on the distribution of the work whether 'int *' can still die in a history."""
     allk = T.BASE12 + T.ABI3 + T.SHAPES + ["unsigned int", "long", "_Bool", "int(*)[3]"]
     small = ["int*", "int**", "int[]", "int(*)(int*)"]
     abik = ["int(*)(int)", "int(*)(int)@3", "int(*)(int)@4", "int(*)(int,...)", "int(*)(int,...)@3"]
     spellk = [k for k in T.PLAIN if len(T.spellings(k, "module")) > 1]
-    hold_vias = ["ctor", "inline-shared", "compiled-shared", "module", "module-func"]
+    hold_vias = ["ctor", "inline-shared", "compiled-shared"]
+    mod_vias = ["ctor", "module", "module-func"]
     hold_ops = ["dropffi", "collect0", "watch:same-ctor"]
     watch_ops = ["slice", "slicekeep", "dropall"]
     whats = ["same-ctor", "same-inline", "pointer-to", "array-of"]
-    shared = ["inline-shared", "compiled-shared", "module"]
+    navk = ["int*", "char*", "int**", "int[]", "int[2]", "int(*)[2]"]
+    nav_ops = ["slice", "slicekeep", "collect0"]
 
     def c(name, keys, **kw):
         d = {"name": name, "keys": list(keys)}
         d.update(kw)
         return d
 
+    def spell(prefix, vias, ops=()):
+        return [c(prefix + ":" + k, [k], vias=list(vias), spell=True, ops=list(ops)) for k in spellk]
+
     plan = []
+    plan.append(("all", [c("all", allk, vias=DEFAULT_VIAS + ["addressof"])], 2, 2))
     if quick:
-        plan.append(("all", [c("all", allk, vias=DEFAULT_VIAS + ["addressof"])], 2, 2))
         plan.append(("small", [c("small", small)], 4, 2))
         plan.append(("abi", [c("abi", abik, vias=["ctor", "compiled"], ops=["watch:same-ctor"])], 4, 4))
         plan.append(("holders", [c("holders", ["int*", "int(*)(int)"], vias=hold_vias, ops=hold_ops)], 4, 2))
-        plan.append(("spell", [c("spell:" + k, [k], vias=list(T.PARSER_VIAS), spell=True, ops=[]) for k in spellk],
-                     2, 2))
+        plan.append(("spell", spell("spell", ["inline", "compiled", "inline-shared", "compiled-shared"]), 2, 2))
         plan.append(("watch", [c("watch:" + w, ["int*"], vias=["ctor"], ops=watch_ops + ["watch:" + w])
                                for w in whats], 5, 2))
-        plan.append(("nav", [c("nav", ["int*", "char*", "int**", "int[]", "int[2]", "int(*)[2]"],
-                               vias=["ctor", "addressof"], ops=["slice", "slicekeep", "collect0"])], 4, 2))
+        plan.append(("nav", [c("nav", navk, vias=["ctor", "addressof"], ops=nav_ops)], 4, 2))
+        plan.append(("module", [c("module", ["int*", "int**", "int(*)(int)"], vias=mod_vias, ops=hold_ops)], 4, 2))
+        plan.append(("spell-module", spell("spellm", ["module", "inline-shared"]), 2, 2))
     else:
-        plan.append(("all", [c("all", allk, vias=DEFAULT_VIAS + ["addressof"])], 2, 2))
         plan.append(("all", [c("base+abi", T.BASE12 + T.ABI3)], 3, 3))
         plan.append(("all", [c("shapes", T.SHAPES + ["int(*)[3]"], vias=DEFAULT_VIAS + ["addressof"])], 3, 3))
         plan.append(("small", [c("small", small)], 5, 3))
@@ -534,19 +559,48 @@ def _plan(quick):
         plan.append(("holders", [c("holders", ["int", "int*", "int*[2]", "int(*)(int)"], vias=hold_vias,
                                    ops=hold_ops)], 3, 3))
         plan.append(("holders", [c("holders:deep", ["int*", "int(*)(int)"], vias=hold_vias, ops=hold_ops)], 4, 3))
-        plan.append(("spell", [c("spell:" + k, [k], vias=list(T.PARSER_VIAS), spell=True, ops=[]) for k in spellk],
-                     2, 2))
-        plan.append(("spell", [c("spell3:" + k, [k], vias=shared, spell=True, ops=["dropffi"]) for k in spellk],
-                     3, 3))
+        plan.append(("spell", spell("spell", ["inline", "compiled", "inline-shared", "compiled-shared"]), 2, 2))
+        plan.append(("spell", spell("spell3", ["inline-shared", "compiled-shared"], ["dropffi"]), 3, 3))
         plan.append(("watch", [c("watch:" + w, ["int*"], vias=["ctor"], ops=watch_ops + ["watch:" + w])
                                for w in whats], 6, 3))
         plan.append(("watch", [c("watch:mixed1", ["int*"], vias=["ctor"],
                                  ops=watch_ops + ["watch:" + w for w in whats])], 5, 3))
         plan.append(("watch", [c("watch:mixed", ["int*", "int[]"], vias=["ctor", "inline"],
                                  ops=watch_ops + ["watch:" + w for w in whats])], 4, 3))
-        plan.append(("nav", [c("nav", ["int*", "char*", "int**", "int[]", "int[2]", "int(*)[2]"],
-                               vias=["ctor", "addressof"], ops=["slice", "slicekeep", "collect0"])], 5, 3))
+        plan.append(("nav", [c("nav", navk, vias=["ctor", "addressof"], ops=nav_ops)], 4, 3))
+        plan.append(("nav", [c("nav:deep", ["int*", "int[]", "int[2]", "int(*)[2]"], vias=["ctor", "addressof"],
+                               ops=nav_ops)], 5, 3))
+        plan.append(("module", [c("module", ["int", "int*", "int**", "int*[2]", "int(*)(int)"], vias=mod_vias,
+                                  ops=hold_ops)], 3, 3))
+        plan.append(("module", [c("module:deep", ["int*", "int**", "int(*)(int)"], vias=mod_vias, ops=hold_ops)],
+                     4, 3))
+        plan.append(("spell-module", spell("spellm", ["module", "inline-shared"]), 2, 2))
+        plan.append(("spell-module", spell("spellm3", ["module", "inline-shared"], ["dropffi"]), 3, 3))
     return plan
+
+
+def _uses_module(cfg):
+    return any(v in ("module", "module-func") for v in cfg.get("vias", DEFAULT_VIAS))
+
+
+def _pin():
+    """Make what cffi keeps for the life of the process the same in every worker, before they are forked: the
+    primitives the compiled route realises once (realize_c_type.c all_primitives[]) ..."""
+    import _cffi_backend as B
+    f = B.FFI()
+    for k in T.PLAIN:
+        if TERMS[k][0] in ("prim", "void"):
+            f.typeof(T.PLAIN[k][0])
+
+
+def _pin_module():
+    """... and, for the second phase, everything an instance of the generated module can realise into its types[]
+    table (typedef names, the function global)."""
+    import _cffi_backend as B
+    m = T.new_module_ffi()
+    for name in T.MODULE_TYPENAMES:
+        m.typeof(name)
+    B.typeof(m.dlopen(None).abs)
 
 
 POPULATION = [("array", 100), ("array", 3000), ("pointer", 100), ("pointer", 3000), ("function", 100),
@@ -584,6 +638,7 @@ def run(ctx):
     T.module_source()           # generated once, inherited by the forked workers
     # everything that exists now (modules, parser tables) is taken out of the collector's sight: the collections of
     # the histories then only look at what the histories created (2x faster, no copy-on-write storm in the workers)
+    _pin()
     _gc.collect()
     _gc.freeze()
     plan = _plan(ctx.quick)
@@ -615,27 +670,34 @@ def run(ctx):
         viol.extend(st.violations)
         return st
 
-    stage1 = [("population", p) for p in POPULATION]
     jobs = {}
     for fam, cfgs, depth, d0 in plan:
         fam_stats.setdefault((fam, depth), hist.Stats())
         for cfg in cfgs:
+            if cfg["name"] in jobs:
+                raise InfraError("duplicate alphabet name %r" % cfg["name"])
             fam_of[cfg["name"]] = (fam, depth)
             jobs[cfg["name"]] = (cfg, depth, d0)
-            stage1.append(("explore", cfg, (), min(2 if depth > 2 else 1, depth), d0, True))
-    stage2 = []
-    for item, r in pool.pmap(_work, [[it] for it in stage1], contain_crashes=True, item_timeout=3600):
-        st = take(item, r)
-        if st is not None:
-            cfg, depth, d0 = jobs[item[1]["name"]]
-            if depth > item[3]:
-                for h in st.frontier:
-                    stage2.append(("explore", cfg, h, depth, d0, False))
-    # the deepest alphabets first (their subtrees are the big ones)
-    stage2.sort(key=lambda it: -it[3])
-    ctx.log("stage 1 done: %d subtrees to explore" % len(stage2))
-    for item, r in pool.pmap(_work, [[it] for it in stage2], contain_crashes=True, item_timeout=3600):
-        take(item, r)
+    for phase in (1, 2):
+        if phase == 2:
+            _pin_module()
+        stage1 = [("population", p) for p in POPULATION] if phase == 1 else []
+        for cfg, depth, d0 in jobs.values():
+            if _uses_module(cfg) == (phase == 2):
+                stage1.append(("explore", cfg, (), min(2 if depth > 2 else 1, depth), d0, True))
+        stage2 = []
+        for item, r in pool.pmap(_work, [[it] for it in stage1], contain_crashes=True, item_timeout=3600):
+            st = take(item, r)
+            if st is not None:
+                cfg, depth, d0 = jobs[item[1]["name"]]
+                if depth > item[3]:
+                    for h in st.frontier:
+                        stage2.append(("explore", cfg, h, depth, d0, False))
+        # the deepest alphabets first (their subtrees are the big ones)
+        stage2.sort(key=lambda it: -it[3])
+        ctx.log("phase %d stage 1 done: %d subtrees to explore" % (phase, len(stage2)))
+        for item, r in pool.pmap(_work, [[it] for it in stage2], contain_crashes=True, item_timeout=3600):
+            take(item, r)
     for (fam, depth), st in fam_stats.items():
         ctx.count("transitions_%s_depth%d" % (fam, depth), st.transitions)
         ctx.count("family_" + fam, st.transitions)
@@ -682,10 +744,11 @@ def run(ctx):
         "evaluations": total.transitions, "distinct_nontrivial": total.states,
         "rule": "a state is an operation history (merged by model key beyond d0); each transition runs on real "
                 "ctypes.  Families: all / small / abi (function types differing in ABI) / holders (long-lived FFI "
-                "objects and module instances, drop of the FFI) / spell (every spelling of a type, 5 parser routes) "
-                "/ watch (4 kinds of rebuilding weakref callbacks, kept slice types) / nav (slice, addressof) are "
-                "histories; population (%d populations of 100..3000 types, half dropped and rebuilt on reused "
-                "addresses) is counted in class_histogram only" % npop,
+                "objects, drop of the FFI) / module (instances of a generated module, typedef names, lib.func) / "
+                "spell and spell-module (every spelling of a type, 5 parser routes) / watch (4 kinds of rebuilding "
+                "weakref callbacks, kept slice types) / nav (slice, addressof) are histories; population (%d "
+                "populations of 100..3000 types, half dropped and rebuilt on reused addresses) is counted in "
+                "class_histogram only" % npop,
         "plan": [{"family": f, "alphabets": len(cf), "type_expressions": len(set(k for x in cf for k in x["keys"])),
                   "depth": d, "d0": z} for f, cf, d, z in plan],
         "populations": npop,
@@ -716,6 +779,9 @@ def replay(detail):
     cfg = (detail.get("info") or {}).get("cfg") or detail.get("cfg")
     if not cfg:
         cfg = {"name": "replay", "keys": list(TERMS), "vias": DEFAULT_VIAS, "ops": ALL_OPS}
+    _pin()                      # the process-wide state the workers of run() start from
+    if _uses_module(cfg):
+        _pin_module()
     s = Sys(cfg)
     for op in [tuple(o) for o in h if tuple(o) != ("<close>",)]:
         bad = s.apply(op)
